@@ -181,3 +181,73 @@ fn deserialize_array_bounded() {
         n += 1;
     }
 }
+
+/// header word 17: the face byte <-> Face are inverse on all 256 values (decoder total)
+#[kani::proof]
+fn face_byte_roundtrip() {
+    let b: u8 = kani::any();
+    let f: Face = b.into();
+    let back: u8 = f.into();
+    assert!(back == b, "u8 -> Face -> u8 is the identity");
+}
+
+/// the slicing layer for EVERY size-consistent header (all twelve sizes symbolic, up to the 32767-word maximum): no
+/// overflow or out-of-bounds in the size arithmetic, every section is 4*size bytes long.  The buffer contents are
+/// irrelevant to slicing and are concrete zeros; only its length (4*lf) is symbolic.
+static BIG: [u8; 131072] = [0u8; 131072];
+#[kani::proof]
+#[kani::unwind(4)]
+fn finish_deserialization_all_sizes() {
+    let s = SubFileSizes { lf: kani::any(), lh: kani::any(), bc: kani::any(), ec: kani::any(), nw: kani::any(), nh: kani::any(),
+        nd: kani::any(), ni: kani::any(), nl: kani::any(), nk: kani::any(), ne: kani::any(), np: kani::any() };
+    // the conditions RawFile::deserialize establishes before it slices
+    kani::assume(s.lh >= 2 && s.bc >= 0 && s.ec >= 0 && s.nw > 0 && s.nh > 0 && s.nd > 0 && s.ni > 0 && s.nl >= 0 && s.nk >= 0 && s.ne >= 0 && s.np >= 0);
+    kani::assume(s.bc as i32 <= s.ec as i32 + 1);
+    let sum: i32 = 6 + s.lh as i32 + (s.ec as i32 - s.bc as i32 + 1) + s.nw as i32 + s.nh as i32 + s.nd as i32 + s.ni as i32 + s.nl as i32 + s.nk as i32 + s.ne as i32 + s.np as i32;
+    kani::assume(s.lf >= 6 && s.lf as i32 == sum);
+    let len = 4 * (s.lf as usize);
+    let raw = RawFile::finish_deserialization(&BIG[..len], s.clone(), Char(0), Char(0));
+    assert!(raw.header.len() == 4 * (s.lh as usize) && raw.widths.len() == 4 * (s.nw as usize) && raw.kerns.len() == 4 * (s.nk as usize));
+    assert!(raw.params.len() == 4 * (s.np as usize) && raw.lig_kern_instructions.len() == 4 * (s.nl as usize));
+    assert!(raw.raw_sub_file_sizes.len() == 24 && raw.char_infos.len() == 4 * ((s.ec as i32 - s.bc as i32 + 1) as usize));
+    kani::cover!(s.np >= 8192, "large sub-files are reachable");
+}
+
+
+/// the encoder's byte layout for every lig/kern instruction value (PLtoTF.2014.142, TFtoPL.2014.77): skip byte, next
+/// character, op byte 4a+2b+c / 128+hi, remainder; boundary-character and redirect words
+#[kani::proof]
+#[kani::unwind(10)]
+fn ser_lig_kern_layout() {
+    use ligkern::lang::{Instruction, Operation, PostLigOperation::*};
+    let next: Option<u8> = if kani::any() { Some(kani::any()) } else { None };
+    let right = Char(kani::any());
+    let bc: Option<Char> = if kani::any() { Some(Char(kani::any())) } else { None };
+    let skip = match next { Some(n) => n, None => 128 };
+    // kern
+    let ix: u16 = kani::any();
+    kani::assume(ix < 0x8000);
+    let v = ser(&Instruction { next_instruction: next, right_char: right, operation: Operation::KernAtIndex(ix) }, bc);
+    assert!(v.len() == 4 && v[0] == skip && v[1] == right.0 && v[2] == 128 + (ix >> 8) as u8 && v[3] == (ix & 255) as u8);
+    // ligatures: all eight forms
+    let c = Char(kani::any());
+    let forms = [(RetainNeitherMoveToInserted, 0u8), (RetainRightMoveToInserted, 1), (RetainLeftMoveNowhere, 2), (RetainBothMoveNowhere, 3),
+        (RetainRightMoveToRight, 5), (RetainLeftMoveToInserted, 6), (RetainBothMoveToInserted, 7), (RetainBothMoveToRight, 11)];
+    let mut k = 0;
+    while k < 8 {
+        let (op, code) = forms[k];
+        let ins = Instruction { next_instruction: next, right_char: right, operation: Operation::Ligature { char_to_insert: c, post_lig_operation: op, post_lig_tag_invalid: false } };
+        let v = ser(&ins, bc);
+        assert!(v.len() == 4 && v[0] == skip && v[1] == right.0 && v[2] == code && v[3] == c.0, "lig op byte = 4a+2b+c");
+        let back = <Instruction as Deserializable>::deserialize(&v);
+        if skip < 128 || next.is_none() { assert!(back == ins, "decode(encode(lig)) == lig"); }
+        k += 1;
+    }
+    // first/last word of the table: boundary character (255, c) / no boundary character (254, 0) / plain redirect (255, 0)
+    let idx: u16 = kani::any();
+    let v = ser(&Instruction { next_instruction: None, right_char: right, operation: Operation::EntrypointRedirect(idx, true) }, bc);
+    match bc { Some(b) => assert!(v[0] == 255 && v[1] == b.0, "boundary character word, also for character 0"), None => assert!(v[0] == 254 && v[1] == 0) }
+    assert!(v.len() == 4 && v[2] == (idx >> 8) as u8 && v[3] == (idx & 255) as u8);
+    let v = ser(&Instruction { next_instruction: None, right_char: right, operation: Operation::EntrypointRedirect(idx, false) }, bc);
+    assert!(v.len() == 4 && v[0] == 255 && v[1] == 0 && v[2] == (idx >> 8) as u8 && v[3] == (idx & 255) as u8);
+}
